@@ -10,10 +10,11 @@ Record ftab := mkFtab {
   shared : nat;                     (* number of shared locks held *)
   handles : list (nat * hmode);     (* open handles: id, mode *)
   dir_ok : bool;                    (* the directory exists *)
-  idx_bad : bool                    (* the head index file is corrupt: a read-write Open (or any Open with Check) fails after locking *)
+  idx_bad : bool;                   (* the head index file is corrupt: a read-write Open (or any Open with Check) fails after locking *)
+  log_bad : bool                    (* the head log file has a torn tail: an Open with Check (read-only: Check or Recover) fails after locking *)
 }.
 
-Definition ftab0 : ftab := mkFtab false O [] true false.
+Definition ftab0 : ftab := mkFtab false O [] true false false.
 
 Inductive fop :=
 | FOpen (h : nat) (ro check : bool)
@@ -21,6 +22,7 @@ Inductive fop :=
 | FPublish (h : nat)
 | FDelete (h : nat)
 | FCorrupt (b : bool)
+| FTear (b : bool)
 | FRmdir (b : bool).
 
 Inductive fres := FOk | FErr (c : eclass) | FSkip.
@@ -40,18 +42,20 @@ Definition fstep (t : ftab) (o : fop) : ftab * fres :=
       if negb (dir_ok t) then (t, FErr CNotExist)
       else if ro then
         if excl t then (t, FErr CLocked)
-        else if idx_bad t && check then (t, FErr CIndexCorrupted)      (* locked, failed, unlocked again *)
-        else (mkFtab (excl t) (S (shared t)) ((h, HRO) :: handles t) (dir_ok t) (idx_bad t), FOk)
+        else if log_bad t && check then (t, FErr CLogCorrupted)        (* locked, failed, unlocked again *)
+        else if idx_bad t && check then (t, FErr CIndexCorrupted)
+        else (mkFtab (excl t) (S (shared t)) ((h, HRO) :: handles t) (dir_ok t) (idx_bad t) (log_bad t), FOk)
       else
         if excl t || negb (Nat.eqb (shared t) 0) then (t, FErr CLocked)
+        else if log_bad t && check then (t, FErr CLogCorrupted)
         else if idx_bad t then (t, FErr CIndexCorrupted)
-        else (mkFtab true (shared t) ((h, HRW) :: handles t) (dir_ok t) (idx_bad t), FOk)
+        else (mkFtab true (shared t) ((h, HRW) :: handles t) (dir_ok t) (idx_bad t) (log_bad t), FOk)
     end
   | FClose h =>
     match find_handle t h with
     | None => (t, FSkip)
-    | Some HRW => (mkFtab false (shared t) (remove_handle t h) (dir_ok t) (idx_bad t), FOk)
-    | Some HRO => (mkFtab (excl t) (pred (shared t)) (remove_handle t h) (dir_ok t) (idx_bad t), FOk)
+    | Some HRW => (mkFtab false (shared t) (remove_handle t h) (dir_ok t) (idx_bad t) (log_bad t), FOk)
+    | Some HRO => (mkFtab (excl t) (pred (shared t)) (remove_handle t h) (dir_ok t) (idx_bad t) (log_bad t), FOk)
     end
   | FPublish h | FDelete h =>
     match find_handle t h with
@@ -59,8 +63,9 @@ Definition fstep (t : ftab) (o : fop) : ftab * fres :=
     | Some HRW => (t, FOk)
     | Some HRO => (t, FErr CReadonly)
     end
-  | FCorrupt b => (mkFtab (excl t) (shared t) (handles t) (dir_ok t) b, FOk)
-  | FRmdir b => (mkFtab (excl t) (shared t) (handles t) (negb b) (idx_bad t), FOk)
+  | FCorrupt b => (mkFtab (excl t) (shared t) (handles t) (dir_ok t) b (log_bad t), FOk)
+  | FTear b => (mkFtab (excl t) (shared t) (handles t) (dir_ok t) (idx_bad t) b, FOk)
+  | FRmdir b => (mkFtab (excl t) (shared t) (handles t) (negb b) (idx_bad t) (log_bad t), FOk)
   end.
 
 Definition frun (ops : list fop) : ftab * list fres :=
